@@ -19,7 +19,7 @@ Requirements you must verify yourself before finishing:
 - with the change and the demo in tests/: `cargo test --offline [--all-features | --features ...] --test demo___ID__` FAILS;
 - with the change reverted (`git apply -R`) and the demo in tests/: the same command PASSES.
 
-IMPORTANT - make it HARD TO FIND. Earlier, more obvious changes of this kind (changed constants and capacities, off-by-one in a length check, reordered or cfg-gated struct fields, changed or added serde attributes (also inside cfg_attr), swapped arms of a lookup table, a different error conversion, an early return, a rewritten helper, a stale buffer, a check done modulo 256, a counter that overflows, a value 'tidied' by its DER/CBOR-declared length, a member gated by the wrong feature, a lossy intermediate buffer, a hand-written Serialize that miscounts, list entries skipped with IgnoredAny once a result is full, a debug_assert on a wrong belief, comparisons made case-insensitive or tolerant of padding, stripping of special Unicode characters, a forwarding impl that forgets a provided method, a trait brought into scope that shadows a method, a size computed in 16 bits, a guard on the total message or buffer length, names compared by length + hash digest, a nesting-depth limit, a copy of unknown names into a fixed log buffer, emoji- / language-tag-aware truncation loops, a capacity constant selected by cfg(feature = \"std\"), a generator that truncates text itself, arrays of integers accepted where a byte string is expected, an indefinite-length array on output, a short Le rejected, an up-front size estimate that counts a byte twice, a new enum variant whose two conversion tables disagree, a second hand-written conversion table next to the original, fixed-offset layouts that pad short values, deserialize_identifier accepting byte strings, an alias added to a member, an 'inconsistent command' guard in a forwarding impl, a non-terminating back-off loop, COSE algorithm aliases (-19 folded into -8), a lead-byte matcher that forgets 0xED, str::get(L..) used as a length test, a visitor that returns before consuming an entry, IgnoredAny for a member of an entry already known to be dropped, a status-word conversion that is not the identity, a size limit on an ignored member derived from a feature-dependent constant, refusing public keys over 256 bytes) have all been detected already, as have changes to the bodies of the central encode / decode / dispatch functions themselves. So: (a) the breakage must need something SPECIFIC and RARE to manifest - one particular byte value or boundary size, one unusual but legal combination of members, one particular combination of cargo features, a value only reachable through a rarely used constructor or variant, an interaction between two members or two nesting levels, a particular ORDER of members on the wire - while the overwhelming majority of inputs, including the obvious boundary values, behave exactly as before; (b) prefer a mechanism in a less obvious place: a helper or conversion used indirectly, a trait impl (Default, From, PartialEq, Clone, Serialize / Deserialize of a nested type), a cfg condition combining two features, a builder, a type alias or constant used by a nested type, a macro; (c) it must still be a genuine violation of the property as stated, demonstrated by your demo. Spend your effort on the subtlety. When done, leave the worktree with the change applied and the demo file removed from tests/, and reply with a 5-line summary (what, where, what input shows it).
+IMPORTANT - make it HARD TO FIND. Earlier, more obvious changes of this kind (changed constants and capacities, off-by-one in a length check, reordered or cfg-gated struct fields, changed or added serde attributes (also inside cfg_attr), swapped arms of a lookup table, a different error conversion, an early return, a rewritten helper, a stale buffer, a check done modulo 256, a counter that overflows, a value 'tidied' by its DER/CBOR-declared length, a member gated by the wrong feature, a lossy intermediate buffer, a hand-written Serialize that miscounts, list entries skipped with IgnoredAny once a result is full, a debug_assert on a wrong belief, comparisons made case-insensitive or tolerant of padding, stripping of special Unicode characters, a forwarding impl that forgets a provided method, a trait brought into scope that shadows a method, a size computed in 16 bits, a guard on the total message or buffer length, names compared by length + hash digest, a nesting-depth limit, a copy of unknown names into a fixed log buffer, emoji- / language-tag-aware truncation loops, a capacity constant selected by cfg(feature = \"std\"), a generator that truncates text itself, arrays of integers accepted where a byte string is expected, an indefinite-length array on output, a short Le rejected, an up-front size estimate that counts a byte twice, a new enum variant whose two conversion tables disagree, a second hand-written conversion table next to the original, fixed-offset layouts that pad short values, deserialize_identifier accepting byte strings, an alias added to a member, an 'inconsistent command' guard in a forwarding impl, a non-terminating back-off loop, COSE algorithm aliases (-19 folded into -8), a lead-byte matcher that forgets 0xED, str::get(L..) used as a length test, a visitor that returns before consuming an entry, IgnoredAny for a member of an entry already known to be dropped, a status-word conversion that is not the identity, a size limit on an ignored member derived from a feature-dependent constant, refusing public keys over 256 bytes, members compared ignoring ASCII case, SELECT with the FIDO AID treated as a U2F instruction, DER signatures re-encoded, a serializer that checks only the last member's result, a request post-processed per command byte, trim_end_matches accepting a repeated suffix, icons starting with data: dropped) have all been detected already, as have changes to the bodies of the central encode / decode / dispatch functions themselves. So: (a) the breakage must need something SPECIFIC and RARE to manifest - one particular byte value or boundary size, one unusual but legal combination of members, one particular combination of cargo features, a value only reachable through a rarely used constructor or variant, an interaction between two members or two nesting levels, a particular ORDER of members on the wire - while the overwhelming majority of inputs, including the obvious boundary values, behave exactly as before; (b) prefer a mechanism in a less obvious place: a helper or conversion used indirectly, a trait impl (Default, From, PartialEq, Clone, Serialize / Deserialize of a nested type), a cfg condition combining two features, a builder, a type alias or constant used by a nested type, a macro; (c) it must still be a genuine violation of the property as stated, demonstrated by your demo. Spend your effort on the subtlety. When done, leave the worktree with the change applied and the demo file removed from tests/, and reply with a 5-line summary (what, where, what input shows it).
 '''
 rd = sys.argv[1]
 subprocess.run(["mkdir", "-p", rd])
